@@ -533,5 +533,8 @@ func C15(tier string) int {
 		}
 	})
 	run.Outcome("strings-ok")
+	// histories of client calls (explicit-state search, checks/clientbfs.go)
+	run.Rule += clientSearchRule
+	clientSearch(run, "C15", 0)
 	return run.Finish()
 }
